@@ -10,7 +10,7 @@
 (*                                       on, then cap := bufferSize                             *)
 (*                sendDataWriter.Close   bufInitPhase := false; deliver the rest; deliver the   *)
 (*                                       empty finish flag                                      *)
-(*                pipelineSendData       take a chunk; load bufferSize; len <= size: one DATA   *)
+(*                pipelineSendData       receive a chunk; load bufferSize; len <= size: one DATA*)
 (*                                       message, else pieces of the *current* bufferSize;      *)
 (*                                       after each message push (begin, length) on ackChan     *)
 (*                                       (capacity kAckChanBufferSize = 5)                      *)
@@ -201,14 +201,23 @@ EncFlag ==        \* deliver([]byte{}): the finish flag; then close(sendDataChan
     /\ UNCHANGED <<cfg, st, size, phase, tok, snd, ackq, acur, ignore, armed, p1, cnt>>
 
 (* ---------------- pipelineSendData ---------------- *)
-SndTake ==        \* data := <-sendDataChan; bufSize := bufferSize.Load(); whole or split
+SndRecv ==        \* for data := range sendDataChan
     /\ st = "file" /\ Pipe /\ snd.pc = "loop" /\ sendq # <<>>
-    /\ LET c == Head(sendq) IN
-         snd' = IF c <= size THEN [pc |-> "whole", left |-> 0, n |-> c]
-                             ELSE [pc |-> "split", left |-> c, n |-> 0]
+    /\ snd' = [pc |-> "taken", left |-> Head(sendq), n |-> 0]
     /\ sendq' = Tail(sendq)
     /\ last' = NoLast
     /\ UNCHANGED <<cfg, st, size, phase, tok, enc, ackq, acur, ignore, armed, p1, cnt>>
+
+(* The receive and the load are two steps: the receive makes room in sendDataChan, so the      *)
+(* encoder may deliver and load its next capacity (and an acknowledgement may store a new      *)
+(* size) between them.  (Found by trace validation under CPU load: ten chunks cut at the old   *)
+(* size were sent after a shrink, one more than an atomic receive-and-load allows.)            *)
+SndTake ==        \* bufSize := bufferSize.Load(); len(data.data) <= bufSize: whole, else split
+    /\ st = "file" /\ Pipe /\ snd.pc = "taken"
+    /\ snd' = IF snd.left <= size THEN [pc |-> "whole", left |-> 0, n |-> snd.left]
+                                  ELSE [pc |-> "split", left |-> snd.left, n |-> 0]
+    /\ last' = NoLast
+    /\ UNCHANGED <<cfg, st, size, phase, tok, enc, sendq, ackq, acur, ignore, armed, p1, cnt>>
 
 SendChunk ==      \* deliver(data.buffer, len, true): one DATA message with the whole chunk
     /\ st = "file" /\ Pipe /\ snd.pc = "whole"
@@ -391,7 +400,7 @@ MP1AckKeep == \E t \in Classes : \E k \in KOf(t) : P1AckKeep(t, k)
 
 Step ==
     \/ MBeginFile \/ MEncFull \/ EncDeliver \/ EncWait \/ EncRenew \/ MEndOfData \/ EncTail \/ EncFlag
-    \/ SndTake \/ SendChunk \/ SndLoadPiece \/ SendPiece \/ SndAckPush
+    \/ SndRecv \/ SndTake \/ SendChunk \/ SndLoadPiece \/ SendPiece \/ SndAckPush
     \/ AckTake \/ MAckFast \/ MAckSlow \/ MAckMiddle \/ AckIgnored \/ PauseSeen \/ MPause
     \/ MP1Send \/ MP1AckFast \/ MP1AckReset \/ MP1AckKeep \/ P1Empty
     \/ FileDone \/ Finish
@@ -410,7 +419,7 @@ TypeOK ==
     /\ enc.pc \in {"idle", "fill", "deliver", "wait", "renew", "tail", "flag", "done"}
     /\ enc.cap \in Int /\ enc.ph \in BOOLEAN /\ enc.n \in Nat /\ enc.tail \in Nat
     /\ Len(sendq) <= SendCap /\ Len(ackq) <= AckCap
-    /\ snd.pc \in {"loop", "whole", "split", "piece", "push"} /\ snd.left \in Nat /\ snd.n \in Nat
+    /\ snd.pc \in {"loop", "taken", "whole", "split", "piece", "push"} /\ snd.left \in Nat /\ snd.n \in Nat
     /\ acur.pc \in {"loop", "got"} /\ acur.len \in Nat
     /\ ignore \in 0..(AckCap + 2) /\ armed \in BOOLEAN
     /\ p1.pc \in {"off", "send", "ack", "end"} /\ p1.bs \in Int /\ p1.fin \in BOOLEAN
@@ -439,7 +448,7 @@ NeverRejectedByReceiver == last.act \in SendActs => RecvAccepts(cfg, last.ann, l
 (* ... nor can one that is still on its way *)
 NothingQueuedIsRejected ==
     /\ \A i \in 1..Len(sendq) : RecvAccepts(cfg, sendq[i], 0)
-    /\ RecvAccepts(cfg, snd.n, 0)
+    /\ RecvAccepts(cfg, snd.n, 0) /\ RecvAccepts(cfg, snd.left, 0)
     /\ (enc.pc # "idle" => RecvAccepts(cfg, enc.cap, 0))
     /\ (~Pipe => RecvAccepts(cfg, p1.bs, p1.bs))
 
